@@ -114,6 +114,7 @@ class Group:
     min: int = 1
     max: int | None = 1
     named: str | None = None    # rendered as a xs:group ref
+    present_first: bool = False  # instance enumeration: the default answer is "present" (leaving it out is the deviation)
 
 
 @dataclass
@@ -228,6 +229,8 @@ def render_particle(p) -> str:
         return f'<xs:element ref="{p[1]}" minOccurs="0" maxOccurs="2"/>'
     if isinstance(p, tuple) and p[0] == "import-typed":
         return f'<xs:element name="{p[1]}" type="{p[2]}" minOccurs="0"/>'
+    if isinstance(p, tuple) and p[0] == "import-box":
+        return f'<xs:element ref="{p[1]}" minOccurs="0"/>'
     if isinstance(p, AnyP):
         return f'<xs:any namespace="{p.ns}" processContents="{p.process}"{_occ(p.min, p.max)}/>'
     if isinstance(p, Group):
@@ -320,6 +323,8 @@ def render(s: Schema, which: str = "main") -> dict[str, str]:
         files["other.xsd"] = ('<?xml version="1.0" encoding="UTF-8"?>\n<xs:schema xmlns:xs="http://www.w3.org/2001/XMLSchema" targetNamespace="urn:other" '
                               'xmlns:o="urn:other" elementFormDefault="qualified"><xs:element name="ext" type="xs:string"/>'
                               '<xs:element name="ohead" type="xs:string"/>'
+                              '<xs:element name="box"><xs:complexType><xs:sequence><xs:element name="note" type="xs:string" form="unqualified"/>'
+                              '<xs:element name="qn" type="xs:int" minOccurs="0"/></xs:sequence></xs:complexType></xs:element>'
                               '<xs:complexType name="Item"><xs:sequence><xs:element name="code" type="xs:int"/></xs:sequence></xs:complexType>'
                               '<xs:attribute name="flag" type="xs:boolean"/></xs:schema>')
     return files
@@ -341,7 +346,7 @@ FEATURES = [
     "union-type", "named-simple-type", "attr-required", "attr-default", "attr-fixed", "attr-group", "any-other", "any-attribute", "extension-xsi-type",
     "nillable", "mixed", "recursion", "include", "import", "simple-content", "typed-values", "nested-anonymous", "sequence-repeating", "element-default",
     "qname-value", "binary-values", "abstract-base", "attr-form-override", "element-form-override", "substitution-head-imported", "simple-content-attr-value",
-    "restriction", "nested-same-name", "same-type-name-imported",
+    "restriction", "nested-same-name", "same-type-name-imported", "optional-run", "foreign-child-local-grandchild", "foreign-child-local-grandchild-no-namespace",
 ]
 
 
@@ -499,6 +504,21 @@ def apply_feature(s: Schema, feat: str) -> None:
         s.types.append(own)
         seq.items.append(Elem("mine", own, min=0))
         seq.items.append(("import-typed", "theirs", "o:Item"))
+    elif feat == "optional-run":
+        # two optional elements next to each other in front of a required one
+        # ... and an optional tail behind it that documents have unless they say otherwise: a, b?, (o1, o2)?, z, (t1, t2)?
+        seq.items.append(Group("sequence", [Elem("o1", SimpleT(base="string")), Elem("o2", SimpleT(base="int"))], min=0))
+        seq.items.append(Elem("z", SimpleT(base="string")))
+        seq.items.append(Group("sequence", [Elem("t1", SimpleT(base="string")), Elem("t2", SimpleT(base="int"))], min=0, present_first=True))
+    elif feat == "foreign-child-local-grandchild-no-namespace":
+        # the same under a root that is in no namespace itself (three levels: unqualified, qualified, unqualified)
+        s.tns = None
+        s.import_ = s.import_ or Schema()
+        seq.items.append(("import-box", "o:box"))
+    elif feat == "foreign-child-local-grandchild":
+        # a child from the imported namespace whose own child is an unqualified local element
+        s.import_ = s.import_ or Schema()
+        seq.items.append(("import-box", "o:box"))
     elif feat == "binary-values":
         seq.items.append(Elem("hx", SimpleT(base="hexBinary"), min=0))
         seq.items.append(Elem("b64", SimpleT(base="base64Binary"), min=0))
@@ -647,6 +667,13 @@ class InstanceGen:
     def particle(self, p) -> list:
         if isinstance(p, tuple) and p[0] == "import-ref":
             return [I.El(p[1], kids=["ext"])] if self.pick([False, True], "import-el") else []
+        if isinstance(p, tuple) and p[0] == "import-box":
+            if not self.pick([False, True], "import-box"):
+                return []
+            kids = [I.El("note", kids=["n"])]
+            if self.pick([False, True], "import-box-qn"):
+                kids.append(I.El("o:qn", kids=["4"]))
+            return [I.El(p[1], kids=kids)]
         if isinstance(p, tuple) and p[0] == "import-typed":
             if not self.pick([False, True], "import-typed"):
                 return []
@@ -673,7 +700,10 @@ class InstanceGen:
             n = self.pick(occ_counts(p.min, p.max), "occ:any")
             return [I.El("w:wild", attrs=[("k", "v")], kids=["w"]) for _ in range(n)]
         g: Group = p
-        n = self.pick(occ_counts(g.min, g.max), f"occ:{g.kind}") if (g.min, g.max) != (1, 1) else 1
+        counts = occ_counts(g.min, g.max)
+        if g.present_first:
+            counts = sorted(counts, key=lambda c: (c == 0, c))
+        n = self.pick(counts, f"occ:{g.kind}") if (g.min, g.max) != (1, 1) else 1
         out = []
         for _ in range(n):
             if g.kind == "choice":
